@@ -2,8 +2,9 @@
 proof: Properties_PANOCOCP.v (PanocOcpLoopProofs.v over R, for every forward/backward oracle, Gauss-Newton oracle, L-BFGS oracle,
 stop/time oracle and parameter set);
 correspondence: Corr_PANOCOCP.chkocp — the executable model at binary64, with the oracles instantiated by the drv_ocp problem family
-(forward pass / Ocp.backward), Lbfgs.v for the L-BFGS direction (NOT teacher-forced), the recorded Gauss-Newton step for the free
-components of GN iterations (teacher forcing for that block only) and the driver's stop-injection points, must reproduce WHOLE RUNS
+(forward pass / Ocp.backward = the C13∘C12 instance PanocOcpE2E.e_bwd), Lbfgs.v for the L-BFGS direction, the Gauss-Newton step COMPUTED
+by C12's masked Riccati model (Ocp.factor_masked / solve_masked on the family's Jacobians and Gauss-Newton Hessian blocks, Eigen's pivoted
+LDLT / partial-pivot LU as the dense solve) — nothing is teacher-forced — and the driver's stop-injection points, must reproduce WHOLE RUNS
 of the real solver: every progress-callback record, final status / iterations / eps / u, y, err_z, all statistics counters, sweep-event
 and callback counts; oracle: the invariants evaluated directly on the implementation's records."""
 import math
@@ -77,11 +78,11 @@ def coq_rec(r):
 def coq_case(cs, o):
     p = cs.prob
     fuel = cs.P_("max_iter") + 8
-    head = ("(OCase (Build_dims %d %d %d 0 %d 0 %d) %s %s %s %s %s %s %s %s %s %s %s %s %s %s %s %s %s %s %s %s %s %s %s %s %s %s %s %s %s %s %s" %
+    head = ("(OCase (Build_dims %d %d %d 0 %d 0 %d) %s %s %s %s %s %s %s %s %s %s %s %s %s %s %s %s %s %s %s %s %s %s %s %s %s %s %s %s %s %s %s %s" %
             (p["N"], p["nx"], p["nu"], p["nc"], p["ncN"], coqmat(p["A"]), coqmat(p["B"]), coqvec(p["fa"]), coqvec(p["fb"]), coqvec(p["w"]), coqvec(p["ref"]),
              coqvec(p["w4"]), coqvec(p["wN"]), coqvec(p["refN"]), coqvec(p["wN4"]), coqmat(p["Cx"]), coqvec(p["cq"]), coqmat(p["CN"]), coqvec(p["cNq"]),
              coqvec(p["Dlb"]), coqvec(p["Dub"]), coqvec(p["DNlb"]), coqvec(p["DNub"]), coqvec(p["Ulb"]), coqvec(p["Uub"]), coqvec(p["x0"]),
-             coqvec(cs.u0), coqvec(cs.y), coqvec(cs.mu), coq_params(cs), coqnat(cs.P_("mem")), coqZ(cs.stop_eval), coqZ(cs.stop_cb), coqbool(cs.time0),
+             coqvec(cs.u0), coqvec(cs.y), coqvec(cs.mu), coq_params(cs), coqbool(cs.P_("chol")), coqnat(cs.P_("mem")), coqZ(cs.stop_eval), coqZ(cs.stop_cb), coqbool(cs.time0),
              coqnat(fuel), coqnat(3000)))
     if "exc" in o:
         threw = {"invalid_argument": 1, "logic_error": 2}.get(o.get("exc_type"), 3)
@@ -187,8 +188,7 @@ def gen_random(ctx, n):
         if rng.random() < 0.1: P["ls_tol"] = rng.choice([0.0, 1e-3])
         kw = {}
         r = rng.random()
-        gn_possible = P["gn_interval"] > 0 and not P.get("disable_acc", False)
-        if r < 0.15 and not gn_possible: kw["stop_eval"] = rng.randint(0, 40)     # may land inside a line search: L-BFGS / no-acceleration runs only (GN steps are recorded per completed iteration)
+        if r < 0.15: kw["stop_eval"] = rng.randint(0, 40)     # may land inside a line search, of Gauss-Newton iterations as well (the model computes the GN step)
         elif r < 0.25: kw["stop_cb"] = rng.randint(0, 6)
         elif r < 0.29: kw["time0"] = True
         out.append(Case(p, u0, y, mu, P, rng.random() < 0.6, rng.choice([1e-1, 1e-3, 1e-6, 1e-10, 0.0]), **kw))
@@ -206,7 +206,7 @@ def gen_hard(ctx, n):
              "beta": rng.choice([0.95, 0.5, 0.99])}
         if rng.random() < 0.3: P["L_max"] = rng.choice([16.0, 256.0, 1e3])
         kw = {}
-        if P["gn_interval"] == 0 and rng.random() < 0.3: kw["stop_eval"] = rng.randint(3, 60)
+        if rng.random() < 0.3: kw["stop_eval"] = rng.randint(3, 60)
         out.append(Case(p, u0, y, mu, P, rng.random() < 0.6, rng.choice([1e-6, 1e-10]), tag="hard", **kw))
     return out
 
@@ -220,15 +220,17 @@ def gen_corpus(ctx):
     return out
 
 def gen_stopscan(ctx, n):
-    """L-BFGS-only runs of fixed problems with stop() injected at EVERY sweep-event index (every line-search position)"""
+    """runs of fixed small problems (L-BFGS only, Gauss-Newton always, Gauss-Newton every 2nd iteration; both factorisations) with stop()
+    injected at EVERY sweep-event index (every line-search position, of Gauss-Newton iterations as well)"""
     rng = ctx.rng
     out = []
     for _ in range(n):
-        p = gen_problem(rng, dims=(rng.choice([1, 2]), rng.choice([1, 2]), 1, rng.choice([0, 1]), rng.choice([0, 1])))
+        p = gen_problem(rng, dims=(rng.choice([1, 2]), rng.choice([1, 2]), rng.choice([1, 1, 2]), rng.choice([0, 1]), rng.choice([0, 1])))
         u0, y, mu = gen_start(rng, p)
-        P = {"max_iter": 4, "crit": rng.choice(SUPPORTED), "gn_interval": 0, "mem": 3, "L_0": rng.choice([0.125, 1.0, 0.0])}
+        P = {"max_iter": 4, "crit": rng.choice(SUPPORTED), "gn_interval": rng.choice([0, 1, 1, 2]), "gn_sticky": rng.random() < 0.5, "chol": rng.random() < 0.5,
+             "mem": 3, "L_0": rng.choice([0.125, 1.0, 0.0])}
         always = rng.random() < 0.5
-        for e in range(0, 26, rng.choice([1, 2])):
+        for e in range(0, 26, 1 if P["gn_interval"] > 0 else rng.choice([1, 2])):     # Gauss-Newton runs: every index
             out.append(Case(p, u0, y, mu, P, always, 1e-9, stop_eval=e, tag="stopscan"))
     return out
 
@@ -359,12 +361,12 @@ def run(ctx):
     ctx.coverage["rule"] = ("whole runs of the real PANOCOCPSolver on the drv_ocp family (N<=4, nx,nu<=2, nc,nc_N<=2; linear / polynomial dynamics, quadratic + quartic costs, "
                             "input boxes with finite / one-sided / infinite / equal / tight sides, stage and terminal constraints with (μ, y)), gn_interval in {0,1,2,3,5}, gn_sticky, "
                             "reset_lbfgs_on_gn_step, lqr_factor_cholesky, disable_acceleration, L-BFGS memory 1..10, all ten criteria (four must throw), max_iter<=25, varied Lipschitz / "
-                            "line-search parameters, small L_max, stop() injected at sweep-event / callback indices (an exhaustive scan over event indices on L-BFGS runs), max_time=0, "
+                            "line-search parameters, small L_max, stop() injected at sweep-event / callback indices (an exhaustive scan over event indices on L-BFGS, Gauss-Newton and mixed runs), max_time=0, "
                             "budgets 0/1/2, no-progress plateaus, exact dyadic ties; one evaluation = one whole run compared record by record with PanocOcpLoop.panoc_ocp at binary64; "
                             "distinct = (status, #records, branch classes of the run)")
     ctx.assumptions += ["theorems over ideal reals (binary64 rounding is covered by the whole-run correspondence only)",
                         "forward / backward sweeps, Gauss-Newton step, L-BFGS object, stop flag and clock are arbitrary oracles in the theorems",
-                        "correspondence: the L-BFGS direction is computed by the model (Lbfgs.v); the free components of a Gauss-Newton step are the recorded ones (teacher forcing for that block only)",
+                        "correspondence: the L-BFGS direction (Lbfgs.v) and the Gauss-Newton step (Ocp.v masked Riccati recursion, index sets, Jacobians, GN Hessian blocks, LDLT / LU solves for nu <= 2) are computed by the model; nothing is teacher-forced",
                         "time_elapsed > max_time is modelled as an input flag; exceptions thrown by user functions are not modelled"]
     gen_chain(ctx)
     check_properties(ctx, "PANOCOCP")
@@ -381,7 +383,7 @@ def attach(ctx, scale=0.35, extra_oracle=None):
     """used by C13: re-check Properties_PANOCOCP.v (whole-loop invariants of PANOC-OCP for all oracles) and run the whole-run
     correspondence of PanocOcpLoop.v against the real PANOCOCPSolver; violations get the calling property's prefix"""
     check_properties(ctx, "PANOCOCP")
-    ctx.assumptions.append("PANOC-OCP whole-loop model (PanocOcpLoop.v, theorems in Properties_PANOCOCP.v) attached: whole runs of PANOCOCPSolver must coincide with the verified model at binary64 (Gauss-Newton block teacher-forced)")
+    ctx.assumptions.append("PANOC-OCP whole-loop model (PanocOcpLoop.v, theorems in Properties_PANOCOCP.v) attached: whole runs of PANOCOCPSolver must coincide with the verified model at binary64 (Gauss-Newton block computed by Ocp.v's masked Riccati model)")
     run_corr(ctx, ctx.pid, scale, extra_oracle)
 
 def gen_nan_sweep(ctx, n):
@@ -478,7 +480,8 @@ def run_corr(ctx, prefix, scale, extra_oracle=None):
     if real:
         cs, o = owners[real[0]]
         # the model is PROVED to satisfy the invariants; an input on which the implementation leaves the model's trajectory is a concrete failing input
-        (ctx.violation if prefix == "PANOCOCP" else (lambda *a, **k: None))("PANOCOCP:run-differs-from-verified-model",
+        # ... also for C13, whose end-to-end theorem (C13_panoc_ocp_converged_is_stationary) is a statement about this model
+        (ctx.violation if prefix in ("PANOCOCP", "C13") else (lambda *a, **k: None))(sig("PANOCOCP:run-differs-from-verified-model"),
                       "whole run of PANOCOCPSolver differs from the verified model PanocOcpLoop.panoc_ocp (first of %d disagreeing runs; status=%s iterations=%s)" % (len(real), o.get("status"), o.get("iterations")),
                       {"driver": "drv_ocp", "input": cs.to_input(), "request": cs.describe(), "impl_output": {k: v for k, v in o.items() if k != "records"},
                        "model_dump": getattr(ctx, "last_dump", "")[-3000:], "why": "model (Coq, binary64) and implementation disagree on this run"})
